@@ -1,6 +1,6 @@
 (* C08 — when the connection ends, every request resolves and the failure is reported.
    Statements only. *)
-From MPD Require Import Bytes Tables BuilderModel LoopModel LoopProofs.
+From MPD Require Import Bytes Tables BuilderModel LoopModel LoopProofs LoopSpec ServerModel DriverLoop LoopRefine LoopRefineProofs LoopDrainProofs.
 Open Scope N_scope.
 
 (* no responder is ever forgotten: at every resumption each responder the loop holds (or has just
@@ -67,9 +67,39 @@ Proof.
   apply DR0.
 Qed.
 
+(* ---- the EXECUTABLE system: a fault-free session of any length, then the stream ends ----
+   [xrun] is the byte-level system the replayer compares with the real client (Props/C05.v,
+   c05_exec_refines); the label "e" closes the server's side of the transport.  Whatever was going
+   on — a request in flight with none, part or all of its reply undelivered, a request held behind
+   a cancelled idle, any number queued, the re-idle window open — once the system has settled:
+   the loop has left (or rests in the window with nothing queued), no caller is left waiting, and
+   the ids resolved before the end followed by the ids resolved by it are exactly the ids of ALL
+   issued requests in issue order: every request resolved exactly once, none lost, none twice. *)
+Theorem c08_exec_eof_resolves : forall cf labs gls, in_fragment cf labs gls ->
+  let xf := fst (xrun (xinit cf) labs) in
+  let segs := snd (xrun (xinit cf) labs) in
+  let x' := snd (fst (apply_label_g xf (b "e"))) in
+  exists g', snd (apply_label_g xf (b "e")) = Some g' /\
+    quiet x' /\ x_callers x' = [] /\
+    map fst (flat_map g_res segs ++ g_res g') = map q_id (flat_map issued_of gls) /\
+    g_panic g' = false.
+Proof. exact exec_eof_resolves. Qed.
+
+(* the draining phase by itself, from ANY state satisfying its invariant (stream ended; what is
+   buffered is a prefix of well-formed responses): each resumption strictly decreases a measure and
+   keeps "resolved ++ still waiting" constant *)
+Theorem c08_exec_drain_step : forall x rs g, DInv x rs ->
+  match xstep x g with
+  | None => quiet x
+  | Some (x', g') => dpost x rs g x' g'
+  end.
+Proof. exact drain_step. Qed.
+
 Print Assumptions c08_responders_accounted.
 Print Assumptions c08_one_closing_event.
 Print Assumptions c08_dead_transport_exits.
 Print Assumptions c08_always_a_step.
 Print Assumptions c08_dead_transport_resolves_all.
 Print Assumptions c08_queue_taken_in_order.
+Print Assumptions c08_exec_eof_resolves.
+Print Assumptions c08_exec_drain_step.
